@@ -477,6 +477,10 @@ def _solve_config(case, grid, parts, bgobj, cfg, Ks, tmpdir, v, cls_bg):
     if len(cfg) > 3:
         # the route of EOM.getBoltzmannFiniteDifference: deep copy of a spectral solver
         base = make_solver(case, grid, parts, bgobj, "Cardinal", "Chebyshev", "Spectral", Ks, tmpdir)
+        # ... of a solver that HAS BEEN USED (EOM copies the solver it has just solved with): whatever the solve left
+        # on the object travels with the deep copy
+        base.solveBoltzmannEquations()
+        base.getDeltas()
         s = copy.deepcopy(base)
         s.derivatives = "Finite Difference"
         s.basisN = "Cardinal"
